@@ -260,7 +260,9 @@ package client
 // What the decoders guarantee for update messages (proved as postconditions of the decoders).
 //@ pred updDecoded(u *ChannelUpdateMsg) = u != nil && stateDecoded(u.State)
 //@ pred paramsDecoded(p *channel.Params) = p != nil && len(p.Parts) >= 2 && len(p.Parts) <= channel.MaxNumParts && partsNonNil(p.Parts) && p.App != nil
-//@ pred signedDecoded(s channel.SignedState) = paramsDecoded(s.Params) && stateDecoded(s.State) && len(s.Sigs) == len(s.State.Balances[0])
+// (nothing is assumed about the number of signatures: the native decoder allocates one slot per participant of the state, the
+// protobuf conversion takes the list as it comes, so the validators have to compare the lengths themselves)
+//@ pred signedDecoded(s channel.SignedState) = paramsDecoded(s.Params) && stateDecoded(s.State)
 //@ pred fundPropDecoded(p *VirtualChannelFundingProposalMsg) = p != nil && updDecoded(&p.ChannelUpdateMsg) && signedDecoded(p.Initial)
 //@ pred settlePropDecoded(p *VirtualChannelSettlementProposalMsg) = p != nil && updDecoded(&p.ChannelUpdateMsg) && signedDecoded(p.Final)
 
